@@ -59,7 +59,8 @@ type fdecl struct {
 }
 
 type op struct {
-	kind   byte // D C W N X R J M
+	kind   byte // D C W N X R J M P S
+	pid    int
 	s      int  // struct index
 	id     int  // instance variable
 	route  byte // h d x l j
@@ -93,6 +94,10 @@ func (o *op) toks() string {
 		return fmt.Sprintf("X %d %s", o.id, o.k.toks())
 	case 'R':
 		return fmt.Sprintf("R %d %s", o.id, o.v.toks())
+	case 'P':
+		return fmt.Sprintf("P %d %d", o.pid, o.id)
+	case 'S':
+		return fmt.Sprintf("S %d %s", o.pid, o.v.toks())
 	case 'J', 'M':
 		ko := 0
 		if o.ko {
@@ -215,6 +220,12 @@ func parseStep(s string) *op {
 		o.k = ts.key()
 	case "R":
 		o.id = ts.int()
+		o.v = ts.value()
+	case "P":
+		o.pid = ts.int()
+		o.id = ts.int()
+	case "S":
+		o.pid = ts.int()
 		o.v = ts.value()
 	case "J", "M":
 		o.ko = ts.int() == 1
